@@ -504,7 +504,7 @@ META["C17"] = dict(
     gates={
         "mon.tree_comparisons": g(2000, 20000),
         "st.rule.argv-named": g(300, 3000), "st.rule.config-named": g(100, 1000), "st.rule.env-named": g(50, 500),
-        "st.env.on": g(500, 5000), "st.env.off-with-decoys": g(500, 5000), "st.env.default-on-but-call-says-env=False": g(250, 2500), "st.channel.argv+envcfg": g(100, 1000),
+        "st.env.on": g(500, 5000), "st.env.off-with-decoys": g(500, 5000), "st.env.default-on-but-call-says-env=False": g(250, 2500), "st.channel.argv+envcfg": g(100, 1000), "st.env_names_two_levels_and_env_config_sets_the_inner_section": g(30, 300),
         "st.rule.first-with-settings": g(50, 500), "st.rule.first-with-settings-of-several": g(30, 300),
         "st.rule.undeterminable-required": g(50, 500), "st.rule.undeterminable-optional": g(30, 300),
         "st.rule.argv-named+config-disagrees": g(30, 300),
